@@ -6,7 +6,7 @@ cd "$(dirname "$0")/.." || exit 2
 test -z "$(git -C /repo status --short)" || { echo "/repo not clean"; exit 2; }
 mkdir -p selftest
 OUT=selftest/seeded_results.txt; : > $OUT
-LIST="$@"; [ -z "$LIST" ] && LIST=$(ls seeded)
+LIST="$@"; [ -z "$LIST" ] && LIST=$(ls -d seeded/*/ | xargs -n1 basename)
 for id in $LIST; do
   d=seeded/$id
   pf="$PWD/$d/patch.diff"; [ -f "$PWD/$d/patch_rebased.diff" ] && pf="$PWD/$d/patch_rebased.diff"
